@@ -18,6 +18,19 @@ CLAIMED = {
              "outside the nonlinear lemma/clauses; pandas/numpy models listed in evidence.assumptions; do_call is verified "
              "for filters=None and variants=None (filters are C14's, BAF lookup C18's)",
         technique=TECH, design_ref="8 (C01), 3, 5"),
+    "C05": dict(
+        category="other",
+        text="Run-time contracts (bounded stand-in) on the real do_reference over generated cohort files (1..8 samples, any sex "
+             "mix, depth scales, noise, naming style, with/without/empty antitarget files, male/female reference, sexes given "
+             "or inferred, corrections off): the reference has exactly the input bins and each bin's log2/spread equal "
+             "biweight location/midvariance over the samples plus one neutral pseudo-sample of each sample's median-centred, "
+             "sex-shifted log2; files whose bins differ are rejected; depth-only variation gives spread ~ 0; chrX 1.0 below "
+             "the autosomal baseline for a male reference and on it for a female one, chrY at -1.0; do_reference_flat gives "
+             "0 / -1 on Y / -1 on X only for a male reference and gc/rmask as G+C and lowercase fractions of unambiguous bases.",
+        note="the exact oracle reuses the package's biweight estimators (C19) and center_all (C15); corrections-on clauses and "
+             "the '~ 0' wording are approximate and only sampled",
+        technique="contract-based: run-time contracts with an exact per-bin oracle on generated cohort files (bounded stand-in)",
+        design_ref="8 (C05)"),
     "C06": dict(
         category="other",
         text="Run-time contracts (bounded stand-in, never counted as proved) on the real GenomicArray.merge/flatten/subtract/"
